@@ -122,6 +122,18 @@ def run(ctx, log):
     # (d) debug build
     dbg = vlib.nlh("eval", lines, tag="c16d", profile="debug", timeout=900)
     compare("by the debug build", dbg)
+    # (d') every alignment of the operand stack against its 16-bit limit (the family C12 scans for values): here only
+    # the question of C16 is asked - do the two build profiles give the same answer, whatever it is
+    fam = [s for s, _ in progcheck.deep_recursion_family()]
+    fam += ["functie f(n) { als n < 1 { antwoord 0 } 1 + f(n - 1) } [%sf(%d)]" % ("0, " * k, d) for k in range(0, 4) for d in range(32760, 32772)]
+    frel = vlib.nlh("eval", ["6000000 " + vlib.hexs(s) for s in fam], tag="c16l", timeout=600)
+    fdbg = vlib.nlh("eval", ["6000000 " + vlib.hexs(s) for s in fam], tag="c16ld", profile="debug", timeout=1200)
+    for s, a_, b_ in zip(fam, frel, fdbg):
+        ctx.seen(("limit", s))
+        ctx.count("context:stack-limit-alignment-both-builds")
+        ctx.evaluations += 2
+        if key(a_) != key(b_) or a_.startswith("PANIC") or a_.startswith("CRASH"):
+            ctx.violate("a recursion at the limit of the 16-bit stack index is answered differently by the release and the debug build", source=s, observed="debug: " + key(b_)[:200], expected="release: " + key(a_)[:200], context="by the debug build")
     # (e) the command-line program built without the observation hooks, one process per program
     progcheck.run_production(ctx, log, [progs[i] for i in sorted(rng.sample(range(len(progs)), min(len(progs), 120 if ctx.quick else 1200)))], budget=20000)
     # the model's single answer
